@@ -26,7 +26,7 @@ open P2P P2P.Termini P2P.State P2P.Proofs.Termini
 
 /-- **A cyclic chain gets no termini.** -/
 theorem cyclic_none (nn nc : Bool) (chain : List TRes) (r0 : TRes) (rest : List TRes) (hc : chain = r0 :: rest)
-    (hN : r0.atoms.contains (str "N") = true) (hC : (chain.getLastD r0).atoms.contains (str "C") = true) :
+    (hN : r0.atoms.contains (str "N") = true) (hC : (ringEnd chain r0).atoms.contains (str "C") = true) :
     assignTermini nn nc true chain = some chain :=
   cyclic_none_core nn nc chain r0 rest hc hN hC
 
@@ -52,6 +52,19 @@ theorem single_residue_termini (nn nc : Bool) (r : TRes) (ha : r.kind = .amino) 
       patch { (patch { r with isN := true } (if nn || r.nHeavy2 then "NEUTRAL-NTERM" else "NTERM")) with isC := true }
         (if nc then "NEUTRAL-CTERM" else "CTERM")] :=
   single_residue_termini_core nn nc r ha
+
+/-- **A cyclic chain followed by waters or hetero groups of the same chain gets no termini either**
+(the repaired behaviour, `fix:` commit in /repo; before it the ring test looked at the chain's very last
+residue, so a deposited cyclic peptide with its waters filed under the same chain identifier was given a
+charged N- and C-terminus: +1 / −2 instead of 0 / −1 on the test suite's own cyclic peptide): the ring
+closes on the last amino residue, looking through trailing waters / hetero groups exactly as the
+C-terminus assignment does. -/
+theorem cyclic_through_trailing (nn nc : Bool) (pre tail : List TRes) (r0 a : TRes)
+    (hc : ∃ rest, pre ++ [a] ++ tail = r0 :: rest) (ha : a.kind = .amino)
+    (hk : ∀ r ∈ tail, (r.kind = .water ∨ r.kind = .other) ∧ r.name ≠ str "NH2" ∧ r.name ≠ str "NME")
+    (hN : r0.atoms.contains (str "N") = true) (hC : a.atoms.contains (str "C") = true) :
+    assignTermini nn nc true (pre ++ [a] ++ tail) = some (pre ++ [a] ++ tail) :=
+  cyclic_through_trailing_core nn nc pre tail r0 a hc ha hk hN hC
 
 /-- **Trailing waters / hetero groups are looked through**: with only non-amino, non-nucleotide,
 non-cap residues after it, the last amino residue still becomes the C-terminus, and those
